@@ -24,6 +24,10 @@ inductive MapO
   | dict | odict | counter | mproxy | ddict
   deriving DecidableEq, Repr, Inhabited
 
+instance : BEq MapO := ⟨fun a b => decide (a = b)⟩
+instance : BEq CollO := ⟨fun a b => decide (a = b)⟩
+instance : BEq Leaf := ⟨fun a b => decide (a = b)⟩
+
 inductive V
   | none
   | bool (b : Bool)
@@ -132,8 +136,14 @@ def pyIter : V → R (List V)
   | _ => raisePy .typeError
 
 /-- `v.items()` -/
+def chainLookup (maps : List V) (k : V) : Option V :=
+  maps.findSome? (fun m => match m with
+    | .map _ kvs => (kvs.find? (fun kv => kv.1 == k)).map (·.2)
+    | _ => none)
+
 def pyItems : V → R (List (V × V))
   | .map _ kvs => .ok kvs
+  | .coll .chainmap maps => .ok ((chainKeys maps).filterMap (fun k => (chainLookup maps k).map (fun v => (k, v))))
   | _ => raisePy .attributeError
 
 /-- Is the object hashable (usable as set element / dict key)?  Dataclass instances are
@@ -165,10 +175,10 @@ def pySeq : V → Option (List V)
     Lookup in a mapping uses structural equality on the integer key. -/
 def pyIndex (v : V) (i : Int) : R V :=
   match v with
-  | .map _ kvs =>
+  | .map o kvs =>
       match kvs.find? (fun kv => kv.1 == V.int i) with
       | some kv => .ok kv.2
-      | none => raisePy .keyError
+      | none => if o == .counter then .ok (.int 0) else raisePy .keyError   -- Counter.__missing__
   | _ =>
     match pySeq v with
     | none => raisePy .typeError
@@ -201,10 +211,10 @@ def pySlice (v : V) (a : Int) (b : Option Int) : R (List V) :=
 /-- `v[key]` for a string key (TypedDict, named tuple as dict, discriminator). -/
 def pyGetItemStr (v : V) (key : String) : R V :=
   match v with
-  | .map _ kvs =>
+  | .map o kvs =>
       match kvs.find? (fun kv => kv.1 == V.str key) with
       | some kv => .ok kv.2
-      | none => raisePy .keyError
+      | none => if o == .counter then .ok (.int 0) else raisePy .keyError
   | .coll .list _ | .coll .tuple _ | .coll .deque _ | .ntuple _ _ | .str _ => raisePy .typeError
   | _ => raisePy .typeError
 
